@@ -58,6 +58,28 @@ func DelFits(c *cases.Del) bool {
 var validIns = []string{"valid/first-free", "valid/last-leaves", "valid/random-pos", "valid/after-occupied", "valid/commitment-zero", "valid/commitment-extremes", "valid/all-zero-commitments"}
 var validDel = []string{"valid/members", "valid/mixed-padding", "valid/all-padding", "valid/padding-garbage", "valid/padding-genuine-proof", "valid/padding-extremes", "valid/empty-leaf-zero", "valid/duplicate-then-zero"}
 
+// ValidInsK is ValidIns with the class chosen by k (callers pass a counter so that every valid class,
+// e.g. "ends exactly on the last leaf", occurs for certain).
+func ValidInsK(r *rand.Rand, depth, batch, k int) *cases.Ins {
+	for tries := 0; tries < 50; tries++ {
+		c, ok := cases.BN254.Insertion(r, validIns[(k+tries)%len(validIns)], depth, batch)
+		if ok && c.Valid && InsFits(c) {
+			return c
+		}
+	}
+	return ValidIns(r, depth, batch)
+}
+
+func ValidDelK(r *rand.Rand, depth, batch, k int) *cases.Del {
+	for tries := 0; tries < 50; tries++ {
+		c, ok := cases.BN254.Deletion(r, validDel[(k+tries)%len(validDel)], depth, batch)
+		if ok && c.Valid && DelFits(c) {
+			return c
+		}
+	}
+	return ValidDel(r, depth, batch)
+}
+
 // ValidIns draws a valid insertion batch (as judged by the oracle).
 func ValidIns(r *rand.Rand, depth, batch int) *cases.Ins {
 	for {
